@@ -345,7 +345,7 @@ class World:
                     # add_state with a container built by the application; sometimes with the handle of an existing state
                     h = r.choice(chs) if (chs and r.random() < 0.35) else f'as{self.new_n}'
                     self.new_n += 1
-                    script['calls'].append(['addState', r.choice(cds), h, r.randrange(1000)])
+                    script['calls'].append([r.choice(['addState', 'writeNew']), r.choice(cds), h, r.randrange(1000)])
                     got.append(h)
                 elif chs:
                     script['calls'].append(['del', r.choice(chs) if r.random() < 0.8 else 'nohandle'])
@@ -415,7 +415,7 @@ class World:
                     how = r.choice(['keep', 'drop', 'add']) if h in cds else 'keep'
                     script['calls'].append(['writeEntity', h, r.randrange(1000), how, True])
                 elif cds and r.random() < 0.4:
-                    script['calls'].append(['writeEntity', self.pick(cds), r.randrange(1000), r.choice(['keep', 'drop', 'add']), stale])
+                    script['calls'].append(['writeEntity', self.pick(cds), r.randrange(1000), r.choice(['keep', 'drop', 'add', 'add', 'hijack']), stale])
                 elif templates:
                     script['calls'].append(['writeEntity', self.pick(templates), r.randrange(1000), 'keep', stale])
             elif z < 0.94 and leafish:
@@ -642,6 +642,20 @@ class World:
                 self.emit(f'mk {H(dh)} {H(h)} 1 0 {self.sbody(st)} {int(self.clock.t)}', 'ok')
                 mgr.add_state(st)
                 info['handed'][h] = st
+            elif op == 'writeNew':
+                # entity interface: a new context state (fresh handle, or the handle of a state of ANOTHER descriptor)
+                _, dh, h, n = call
+                d = m.descriptions.handle.get_one(dh, allow_none=True)
+                if d is None or not d.is_context_descriptor:
+                    return
+                old = m.context_states.handle.get_one(h, allow_none=True)
+                if old is not None and old.DescriptorHandle == dh:
+                    return  # the entity itself refuses a second state with this handle; not a call of the transaction API
+                ent = m.entities.by_handle(dh)
+                st = ent.new_state(h)
+                self.mutate_state(st, n)
+                self.emit(f'mk {H(dh)} {H(h)} 1 0 {self.sbody(st)} {int(self.clock.t)}', 'ok')
+                mgr.write_entity(ent, [h])
             elif op == 'setBody':
                 st = info['handed'].get(call[1])
                 if st is None or call[1] not in mgr._state_updates or mgr._state_updates[call[1]].new is not st:  # noqa: SLF001
@@ -716,6 +730,16 @@ class World:
                 self.mutate_descr(ent.descriptor, n)
                 d = ent.descriptor
                 head = f'writeEntity {H(d.Handle)} {H(d.parent_handle)} {kind_of(d)} {d.DescriptorVersion} {self.dbody(d)} {H(d.source_mds)}'
+                if ent.is_multi_state and how == 'hijack':
+                    foreign = sorted(s.Handle for s in m.context_states.objects if s.DescriptorHandle != h and s.Handle not in ent.states)
+                    if foreign:
+                        # a "new" state with the handle of a context state of another descriptor: the API has to refuse the
+                        # call (model: creating what already exists = `addDescr` of an existing handle)
+                        ent.new_state(foreign[0])
+                        self.emit(f'addDescr {H(h)} {H(d.parent_handle)} {kind_of(d)} 0 0 - -', 'ok')
+                        mgr.write_entity(ent)
+                        return
+                    how = 'add'
                 if ent.is_multi_state:
                     if how == 'drop' and ent.states:
                         ent.states.pop(sorted(ent.states)[0])
